@@ -22,6 +22,8 @@ FORBIDDEN = re.compile(r"\b(sorry|admit|native_decide|bv_decide|implemented_by|u
 
 os.environ["IBICUS_VERIF"] = "1"  # hooks on for every run of the real code
 os.environ.setdefault("OMP_NUM_THREADS", "1")
+if os.path.realpath(REPO) != "/repo":
+    sys.path.insert(0, REPO)  # mutation trials on a scratch worktree: import ibicus from there
 sys.path.insert(0, os.path.join(VERIF, "translator"))
 sys.path.insert(0, VERIF)
 
